@@ -31,3 +31,11 @@ reg("C12",
     explanation="per PLAIN-capable runtime type every value of a grid or full range (thorough: all 2^32 i32, all 2^32 f32-widened doubles) is formatted and parsed back; text is compared with independent encoders (Base64, uuid, decimal) or grammar checkers (number, RFC 3339)",
     level_text="Exhaustive exploration of complete ranges where feasible (bool, i32, byte strings <= 2, f32-widened doubles) and of class-boundary grids elsewhere, on the real formatting/parsing code against an independent spelling model.",
     level_note="Trusted: chrono's field constructors to build instants; std float parsing as the judge of 'same number'. Generated enums/aliases are covered by the E2 part when built.")
+
+reg("C01",
+    packages=["shapes"], bin="shapes", level="model_checking", engine="E1 shapes",
+    technique="explicit-state enumeration of (type shape, value) states up to a depth bound, each executed on the real serializers/deserializers (all entry points x sources) and judged by an independent wire model",
+    design_ref="DESIGN.md §3 C01",
+    explanation="all shapes of the Conjure type grammar up to the depth bound x value sets; each state is serialized through 4 JSON + 2 Smile entry points and deserialized through client/server x str/slice/reader(short reads)/mut-slice; JSON and Smile trees read back with plain serde_json/serde_smile are compared with the reference encoding",
+    level_text="Bounded exhaustive exploration of the shape grammar (every re-wrapping point of the wrappers is reached in every nesting up to the bound) executed on the implementation itself, with a reference model of the wire encoding as oracle. There is no separate model to bind: every state is run on the real code.",
+    level_note="Trusted: serde_json / serde_smile as readers of the produced bytes; the dynamic (Shape, Val) serde implementation (bound to derive/std impls by the static-twin conformance check); the reference encoders in vcommon::cmodel.")
